@@ -210,7 +210,7 @@ def r3(rr, repo):
     rr.ob('a frame without image sends no image part (has_image tested before any image access)', bool(noimg), mod, w, key='no-image')
 
 
-@rule('C09.R4', 'decoding asserts the declared shape: Frame.image (lazy) and Frame.from_blob compare the decoded shape with the declared one')
+@rule('C09.R4', 'decoding reproduces the declared shape: Frame.image (lazy) and Frame.from_blob compare the decoded shape with the declared one; the raw decode rebuilds the array with exactly the declared geometry')
 def r4(rr, repo):
     fmod, img = repo.find(f'{FR}::Frame.image')
     _, fb = repo.find(f'{FR}::Frame.from_blob')
@@ -227,3 +227,38 @@ def r4(rr, repo):
     st = [n for n in ast.walk(fb) if isinstance(n, ast.Assign) and any('__shapef' in U(t) for t in n.targets) and 'height' in U(n.value)]
     ok3 = bool(st) and len(fp) >= 5 and f"({fp[2]}, {fp[3]}) if {fp[4]} == 'GRAY' else ({fp[2]}, {fp[3]}, 3)" in U(st[0].value)
     rr.ob('a jpg-only frame declares its shape as (height, width) / (height, width, 3)', ok3, fmod, st[0] if st else fb, key='declared-shape')
+    # raw decode: the array is rebuilt with exactly the declared geometry - (h, w) for GRAY, (h, w, 3) otherwise - and nothing
+    # reshapes it afterwards (an inferred axis or a squeeze changes 1 x N / N x 1 / 1 x 1 images)
+    mmod, t2f = repo.find(f'{MQF}::MQ.topicmsgs2frames')
+    cons = [c for c in q.name_calls(t2f, 'Frame') if c.args and any(isinstance(x, ast.Call) and U(x.func).endswith('.frombuffer') for x in ast.walk(c.args[0]))]
+    rr.floor('raw-image Frame constructions in topicmsgs2frames', len(cons), 1, mmod, t2f)
+    for c in cons:
+        x = c.args[0]
+        SHAPERS = ('squeeze', 'transpose', 'ravel', 'flatten', 'swapaxes', 'T', 'resize', 'view', 'astype')
+        def sub(n, base, i):
+            return isinstance(n, ast.Subscript) and U(n.value) == base and isinstance(n.slice, ast.Constant) and n.slice.value == i
+        verdict, why = None, ''
+        if isinstance(x, ast.Call) and isinstance(x.func, ast.Attribute) and x.func.attr == 'reshape' and isinstance(x.func.value, ast.Call) and U(x.func.value.func).endswith('.frombuffer'):
+            fb_ = x.func.value
+            dt = U(fb_.args[1]) if len(fb_.args) > 1 else (U(q.kwarg(fb_, 'dtype')) if q.kwarg(fb_, 'dtype') is not None else '')
+            shp = x.args[0] if len(x.args) == 1 else ast.Tuple(elts=list(x.args), ctx=ast.Load())
+            if isinstance(shp, ast.IfExp) and isinstance(shp.test, ast.Compare) and len(shp.test.ops) == 1 and isinstance(shp.test.ops[0], (ast.Eq, ast.NotEq)):
+                gray, colour = (shp.body, shp.orelse) if isinstance(shp.test.ops[0], ast.Eq) else (shp.orelse, shp.body)
+                sides = [shp.test.left, shp.test.comparators[0]]
+                fmt = [n for n in sides if isinstance(n, ast.Subscript)]
+                lit = [n for n in sides if isinstance(n, ast.Constant)]
+                base = U(fmt[0].value) if fmt else ''
+                okf = bool(fmt) and bool(lit) and lit[0].value == 'GRAY' and sub(fmt[0], base, 2)
+                okg = (isinstance(gray, ast.Tuple) and len(gray.elts) == 2 and sub(gray.elts[0], base, 0) and sub(gray.elts[1], base, 1)) or U(gray) == f'{base}[:2]'
+                okc = isinstance(colour, ast.Tuple) and len(colour.elts) == 3 and sub(colour.elts[0], base, 0) and sub(colour.elts[1], base, 1) and isinstance(colour.elts[2], ast.Constant) and colour.elts[2].value == 3
+                verdict = okf and okg and okc and dt.endswith('uint8')
+                why = f'dtype={dt} shape={U(shp)}'
+            elif any(isinstance(n, ast.Constant) and n.value == -1 for n in ast.walk(shp)) or any(isinstance(n, ast.UnaryOp) and isinstance(n.op, ast.USub) for n in ast.walk(shp)):
+                verdict, why = False, f'an axis is inferred: {U(shp)}'
+        elif (isinstance(x, ast.Call) and isinstance(x.func, ast.Attribute) and x.func.attr in SHAPERS) or (isinstance(x, ast.Attribute) and x.attr in SHAPERS):
+            verdict, why = False, f'the rebuilt array is reshaped again by .{(x.func if isinstance(x, ast.Call) else x).attr}'
+        if verdict is None:
+            rr.unresolved('raw decode: unrecognised way of rebuilding the array from the buffer', mmod, c, witness=U(x)[:160], key='raw-geometry')
+        else:
+            rr.ob('raw decode rebuilds the array as uint8 with exactly the declared geometry: (height, width) for GRAY, (height, width, 3) otherwise, no inferred axis, no later reshaping',
+                  verdict, mmod, c, witness=why[:200], key='raw-geometry')
